@@ -292,7 +292,7 @@ func (c *Cache) getSubscription(name string, subscribe bool) (*EventSubscription
 			eventSub.enqueueEvent(subj, payload)
 		})
 		if err != nil {
-			verifNote("cacheGetFail", "name", name, "count", eventSub.count, "created", !ok)
+			verifNote("cacheGetFail", "name", name, "count", verifCount(eventSub), "created", !ok)
 			// Give back the use counted above, or the entry is never evicted
 			eventSub.mu.Lock()
 			eventSub.removeCount(1)
@@ -303,7 +303,7 @@ func (c *Cache) getSubscription(name string, subscribe bool) (*EventSubscription
 		eventSub.mqSub = mqSub
 	}
 
-	verifNote("cacheGet", "name", name, "count", eventSub.count, "created", !ok, "subscribe", subscribe, "mqSub", eventSub.mqSub != nil)
+	verifNote("cacheGet", "name", name, "count", verifCount(eventSub), "created", !ok, "subscribe", subscribe, "mqSub", eventSub.mqSub != nil)
 	return eventSub, nil
 }
 
@@ -339,10 +339,10 @@ func (c *Cache) mqUnsubscribe(v interface{}) {
 	}
 
 	if !eventSub.mqUnsubscribe() {
-		verifNote("cacheEvict", "name", eventSub.ResourceName, "done", false, "count", eventSub.count)
+		verifNote("cacheEvict", "name", eventSub.ResourceName, "done", false, "count", verifCount(eventSub))
 		return
 	}
-	verifNote("cacheEvict", "name", eventSub.ResourceName, "done", true, "count", eventSub.count)
+	verifNote("cacheEvict", "name", eventSub.ResourceName, "done", true, "count", verifCount(eventSub))
 
 	delete(c.eventSubs, eventSub.ResourceName)
 
